@@ -3,7 +3,7 @@ C05 — Simple reader equals the documented view of the raw data.
 
 Main theorems (E57/Proofs/SimpleView.lean, on E57/Model/Simple.lean; `Float` operations are kept
 uninterpreted, so every statement holds for any interpretation of the arithmetic):
- * `postProcess_eq_map`   four passes over a batch = per-point composition `perPoint`
+ * `postProcess_eq_map`   four passes over a batch = per-point composition `perPoint` (the pose only if there is one)
  * `simple_next_spec`     exact five-way description of one `next`
  * `simple_eq_map_raw`    same queue/reader/records: if every raw item is a value and every view of the
                           points made available succeeds, both iterators yield `records` items, the k-th
@@ -15,5 +15,9 @@ uninterpreted, so every statement holds for any interpretation of the arithmetic
  * `simple_fails_only_where`, `viewPoint_none_iff`   an error means the refill failed (then the raw iterator
                           fails too) or a stored invalid-state value is outside {0,1,2} / {0,1}
  * `locality_transform/_s2c/_c2s/_i2c/_nc/_ni`   which fields each option switch can influence
+                          (`locality_transform_cartesian`: `transform` changes nothing but VALID Cartesian coordinates)
+ * `no_pose_no_change` (`_next`, `_items`, `_fullView`)   the pose is applied only if the option is on AND the point
+                          cloud has a pose: without a pose the switch `transform` has no effect at all (the identity
+                          rotation and zero translation are not neutral for floats: −0.0, 0·∞)
 -/
 import E57.Proofs.SimpleView
